@@ -80,6 +80,7 @@ class C02(common.ModelProperty):
         "constructor-with-repeated-entries",
         "universe-member-of-other-universe",
         "admission-rule-override-rejected-a-vertex",
+        "override-raised-after-recording-the-membership",
     ]
 
     def make_config(self, rng):
@@ -105,6 +106,8 @@ class C02(common.ModelProperty):
                 # a subclass whose add_vertex override calls back into the library
                 ["Universe", "RejectingUniverse"],
                 ["RejectingUniverse", "FalsyUniverse"],
+                # a subclass whose override raises after super().add_vertex() for some vertices
+                ["Universe", "RaisingUniverse"],
             ]
         )
         cfg["edge_classes"] = ["DirectedEdge"]
@@ -130,6 +133,20 @@ class C02(common.ModelProperty):
     def execute(self, st, op):
         s = st.stats
         k = op["op"]
+        objs = st.model.objs
+        # constructions that would fail half-way through user code are not
+        # part of these histories (the model has no notion of a half-built object)
+        if k == "mk_vertex" and op.get("tag") == 4 and any(
+            objs.get(u, {}).get("cls") == "RaisingUniverse" for u in op.get("universes") or []
+        ):
+            return None, None
+        if k == "mk_universe" and op.get("cls") == "RaisingUniverse" and any(
+            st.model.tags.get(v) == 4 for v in op.get("vertices") or []
+        ):
+            return None, None
+        if k in ("uni_add", "v_add_uni") and op["u"] in objs and op["v"] in objs and st.model.raises_after(op["u"], op["v"]):
+            s["probe:override-raised-after-recording-the-membership"] += 1
+            s["fault:exception-out-of-subclass-override"] += 1
         if k in ("uni_add", "v_add_uni") and op["u"] in st.model.objs and op["v"] in st.model.objs:
             if st.model.rejects(op["u"], op["v"]):
                 s["probe:admission-rule-override-rejected-a-vertex"] += 1
@@ -163,8 +180,10 @@ class C02(common.ModelProperty):
     def state_kind(self, op, expected, diff):
         from egsim import model as M
 
-        if isinstance(expected, M.Raises):
+        if isinstance(expected, M.Raises) and op["op"] in ("uni_remove", "v_remove_uni"):
             return "C02/non-member-removal-changed-state"
+        if isinstance(expected, M.Raises):
+            return f"C02/state-differs-from-model-after-a-failing-call:{op['op']}"
         if diff and diff.get("field") == "members":
             return "C02/universe-vertices-order-or-content"
         return f"C02/state-differs-from-model:{op['op']}"
@@ -172,8 +191,10 @@ class C02(common.ModelProperty):
     def outcome_kind(self, op, expected, why):
         from egsim import model as M
 
-        if isinstance(expected, M.Raises):
+        if isinstance(expected, M.Raises) and op["op"] in ("uni_remove", "v_remove_uni"):
             return "C02/non-member-removal-did-not-raise"
+        if isinstance(expected, M.Raises):
+            return f"C02/failing-override-swallowed:{op['op']}"
         return f"C02/raised-unexpectedly:{op['op']}"
 
 
